@@ -161,6 +161,24 @@ def run_property(mod, pid, tier, seed, t0):
     harnesses = mod.harnesses(tier)
     res = generate(harnesses)
     res.solve_s = core.discharge_all(res.obligations, budget=budget, deadline_s=(150 if tier == 'quick' else 1200))
+    # structural clauses (assigns / calls / fresh-state), decided syntactically over the same AST
+    if hasattr(mod, 'structural'):
+        import z3 as _z3
+        try:
+            clauses = mod.structural(tier, res)
+        except extract.ExtractionError as e:
+            clauses = []
+            res.unsupported.append('structural: %s' % e)
+        except Exception as e:
+            clauses = []
+            res.unsupported.append('structural: internal: %s: %s' % (type(e).__name__, e))
+            res.errors.append(traceback.format_exc())
+        for c in clauses:
+            ob = core.Obligation('structural::' + c.cid, c.kind, [], _z3.BoolVal(True), 'unsat', None, c.where)
+            ob.status = {True: 'discharged', False: 'refuted', None: 'undecided'}[c.ok]
+            ob.backend = 'syntactic'
+            ob.model = {'detail': c.detail}
+            res.obligations.append(ob)
     by_status, by_backend = summarize(res.obligations)
     proof_obs = [ob for ob in res.obligations if ob.expect == 'unsat']
     covers = [ob for ob in res.obligations if ob.expect == 'sat']
